@@ -20,6 +20,8 @@ fn inj_cfg(t: Tier) -> GenCfg {
   c.bottom_up_weight = 3;
   c.max_steps = match t { Tier::Quick => 8, Tier::Thorough => 12 };
   c.task_panic_share = 2;
+  // Detection must not depend on sessions being short-lived: long sessions with changes while they are open included.
+  c.mid_session_changes = true;
   c
 }
 
